@@ -42,7 +42,7 @@ def check(run):
         ok = nxt[0] == "res" and nxt[2] == f"self.{sg.lf}" and len(nxt[3]) == 2 and not nxt[4] and nxt[3][0] == sg.y
         why = ""
         if ok:
-            outs, why = meanout_arg(nxt[3][1])
+            outs, why = meanout_arg(nxt[3][1], s.events)
             ok = outs == iev.res
             if outs is not None and not ok:
                 why = f"the mean is taken over {ir.show_nl(outs)[:100]}, not over the imputer's predictions"
